@@ -1,4 +1,4 @@
-import vf
+import vf, e2obs, decode
 import prog_kinds
 
 ENC_TEXT = ["cminx.aggregator.DocumentationAggregator.enterDocumented_command", "DocumentationAggregator.clean_doc_lines",
@@ -33,4 +33,9 @@ def build(tier):
                          timeout=240 if quick else 1200, encodes=ENC_TEXT,
                          symbolic=f"{n1}+{n2} doc lines of {l} arbitrary code points each (no LF, CR, ']]')",
                          bound=f"two adjacent documented commands ({a}, {b}); line length exactly {l}"))
+    D = 2 if quick else 4
+    obs.append(e2obs.ob_validate(D, tier))
+    obs.append(e2obs.ob_canon('C01', D, module=False, label='C01.d'))
+    obs.append(e2obs.ob_canon('C01', D, module=True, label='C01.d'))
+    obs.append(decode.ob_decode('C01', 'C01.e'))
     return dict(obligations=obs, explanation="x", assumptions=[])
